@@ -189,6 +189,7 @@ type Exec struct {
 	newWorkModels []map[string]uint64
 	cacheHits     int
 	curKind       string
+	symmetryPruned int
 	solver2       *Solver
 	crossBudget   *int
 	crossChecked, crossUnknown, crossDisagree int
@@ -212,6 +213,8 @@ type Thread struct {
 	start  func(t *Thread)
 	inMon  bool
 	name   string
+	isFresh  bool   // has not been scheduled since its thread-local prefix
+	spawnKey string // go statement + argument identities (symmetry class)
 }
 
 type SyncOp struct {
@@ -759,7 +762,7 @@ func (e *Exec) schedLoop(main *Thread) {
 			}
 		}
 		if e.eng.cfg.Symmetry {
-			cands = e.symmetryReduce(cands)
+			cands = e.symmetryReduce(en, cands)
 		}
 		if len(cands) == 0 {
 			e.abort = &pathAbort{"sleepblocked", ""}
@@ -787,29 +790,46 @@ func (e *Exec) schedLoop(main *Thread) {
 		}
 		e.schedTrace = append(e.schedTrace, ch.id)
 		e.transitions++
+		ch.isFresh = false
 		e.resume(ch)
 	}
 }
 
-// symmetryReduce keeps only the lowest-numbered thread among enabled threads that are idle pool
-// workers parked at the same select with identical (empty) local history.
-func (e *Exec) symmetryReduce(c []*Thread) []*Thread {
+// symmetryReduce: idle-worker symmetry. Goroutines that were started by the same `go` statement
+// with the same arguments, have not taken a single step since their thread-local prefix, and are
+// parked at the same operation are interchangeable (the harnesses observe thread identity only
+// through equality). Among such twins only the lowest-numbered one is a candidate; if that one is
+// asleep (its step is known to be redundant here) so are its twins.
+func (e *Exec) symmetryReduce(enabled []*Thread, cands []*Thread) []*Thread {
+	rep := map[string]*Thread{}
+	for _, t := range enabled {
+		if k := t.twinKey(); k != "" {
+			if _, ok := rep[k]; !ok {
+				rep[k] = t
+			}
+		}
+	}
 	var out []*Thread
-	seen := map[string]bool{}
-	for _, t := range c {
-		if t.op != nil && t.op.kind == "select" && t.fresh() {
-			k := fmt.Sprintf("%p@%s", t.op.obj, t.opPos())
-			if seen[k] {
+	for _, t := range cands {
+		if k := t.twinKey(); k != "" {
+			r := rep[k]
+			if r != t || e.sleep[r.id] {
+				e.symmetryPruned++
 				continue
 			}
-			seen[k] = true
 		}
 		out = append(out, t)
 	}
 	return out
 }
 
-func (t *Thread) fresh() bool { return false }
+// twinKey identifies the symmetry class of a still-fresh thread ("" = not eligible).
+func (t *Thread) twinKey() string {
+	if !t.isFresh || t.op == nil || t.spawnKey == "" {
+		return ""
+	}
+	return t.spawnKey + "|" + t.op.kind + "@" + t.opPos()
+}
 
 func (t *Thread) runInit(init *ssa.Function) {
 	// interpret the package initialiser, skipping imported packages' initialisers
